@@ -116,6 +116,14 @@ func numEdge(r *Rng, bits int, signed bool) int64 {
 
 func (g *rtGen) tripDesc(r *Rng, k int, named bool) map[string]any {
 	d := map[string]any{}
+	if k == 0 && !g.nyctTrips && r.P(1, 10) {
+		// the all-default descriptor (`trip {}`): a legitimate, if unusual, trip whose identifier is the
+		// zero value - the key a missing map entry also yields. At most one per pool (it is one trip).
+		if r.P(1, 2) {
+			d["sr"] = 0
+		}
+		return d
+	}
 	ids := []string{"trip-%d", "T%d", "%06d_A..N", "%06d_GS.S01R", "%06d_1..N03R", "%06d_é..N", "%06d_AB..S"}
 	f := r.Pick(ids)
 	if g.nyctTrips && r.P(2, 3) {
